@@ -308,6 +308,17 @@ message V {
 			for _, l := range lits {
 				c06Decode(c, env, target, doc(f, l), "wkt-literal")
 			}
+			if f == "d" || f == "t" {
+				// the same literals as array elements and map values (null among them)
+				for _, l := range lits {
+					c06Decode(c, env, target, doc(f+"s", `[`+l+`]`), "wkt-literal-in-array")
+					c06Decode(c, env, target, doc(f+"s", `["1s",`+l+`]`), "wkt-literal-in-array")
+					if f == "d" {
+						c06Decode(c, env, target, doc("dm", `{"a":`+l+`}`), "wkt-literal-in-map")
+						c06Decode(c, env, target, doc("dm", `{"a":"1s","b":`+l+`}`), "wkt-literal-in-map")
+					}
+				}
+			}
 			for _, sv := range []string{"", "x", "1", "-1", "true", "AA==", "not base64!", "9223372036854775808", "1e400", "NaN"} {
 				c06Decode(c, env, target, doc(f, q(sv)), "wkt-wrapper-string")
 				c06Query(c, env, target, url.Values{f: {sv}}, "wkt-wrapper-query")
